@@ -614,7 +614,7 @@ pub fn fork_history(cfg: &RandCfg, rng: &mut StdRng, r: &mut Recorder, clients: 
 pub fn props_history(cfg: &RandCfg, rng: &mut StdRng, r: &mut Recorder, clients: &[&str]) {
     let mut w = World::new(cfg.mdk.clone());
     for (i, c) in clients.iter().enumerate() {
-        let be = match cfg.backend.as_str() { "mixed" => if (i + cfg.seed as usize) % 2 == 0 { "mem" } else { "sql" }, x => x };
+        let be = match cfg.backend.as_str() { "mixed" => if i % 2 == 0 { "mem" } else { "sql" }, x => x };
         w.add_client(c, be);
     }
     r.emit(json!({"op":"Reset"}));
@@ -709,7 +709,7 @@ pub fn props_history(cfg: &RandCfg, rng: &mut StdRng, r: &mut Recorder, clients:
 pub fn leaf_history(cfg: &RandCfg, rng: &mut StdRng, r: &mut Recorder, clients: &[&str]) {
     let mut w = World::new(cfg.mdk.clone());
     for (i, c) in clients.iter().enumerate() {
-        let be = match cfg.backend.as_str() { "mixed" => if (i + cfg.seed as usize) % 2 == 0 { "mem" } else { "sql" }, x => x };
+        let be = match cfg.backend.as_str() { "mixed" => if i % 2 == 0 { "mem" } else { "sql" }, x => x };
         w.add_client(c, be);
     }
     r.emit(json!({"op":"Reset"}));
@@ -767,7 +767,7 @@ pub fn leaf_history(cfg: &RandCfg, rng: &mut StdRng, r: &mut Recorder, clients: 
 pub fn devices_history(cfg: &RandCfg, rng: &mut StdRng, r: &mut Recorder, clients: &[&str]) {
     let mut w = World::new(cfg.mdk.clone());
     for (i, c) in clients.iter().enumerate() {
-        let be = match cfg.backend.as_str() { "mixed" => if (i + cfg.seed as usize) % 2 == 0 { "mem" } else { "sql" }, x => x };
+        let be = match cfg.backend.as_str() { "mixed" => if i % 2 == 0 { "mem" } else { "sql" }, x => x };
         if *c == "c4" { w.add_client_sibling("c4", "c3", be); } else { w.add_client(c, be); }
     }
     r.emit(json!({"op":"Reset"}));
@@ -860,7 +860,7 @@ pub fn devices_history(cfg: &RandCfg, rng: &mut StdRng, r: &mut Recorder, client
 pub fn rejoin_history(cfg: &RandCfg, rng: &mut StdRng, r: &mut Recorder, clients: &[&str]) {
     let mut w = World::new(cfg.mdk.clone());
     for (i, c) in clients.iter().enumerate() {
-        let be = match cfg.backend.as_str() { "mixed" => if (i + cfg.seed as usize) % 2 == 0 { "mem" } else { "sql" }, x => x };
+        let be = match cfg.backend.as_str() { "mixed" => if i % 2 == 0 { "mem" } else { "sql" }, x => x };
         w.add_client(c, be);
     }
     r.emit(json!({"op":"Reset"}));
